@@ -228,6 +228,28 @@ Section Table.
   Definition config_of (calls : list (Z * P * H)) : routes :=
     fold_left (fun r c => let '(m, p, h) := c in add_route m p h r) calls [].
 
+  (* The configuration phase as a SEQUENCE of calls on the config object / its builder, read accessors
+     included: AddRoute, GetRoutes, GetMiddleware (and the other getters), SetMiddleware / UsingMiddleWare.
+     Getters return the stored value and change nothing; SetMiddleware overwrites. *)
+  Inductive cfg_op :=
+  | OAdd (m : Z) (p : P) (h : H)
+  | OGetRoutes | OGetMiddleware
+  | OSetMiddleware (f : H -> H).
+  Record cfg := { c_routes : routes; c_mw : option (H -> H) }.
+  Definition cfg_step (c : cfg) (o : cfg_op) : cfg :=
+    match o with
+    | OAdd m p h => {| c_routes := add_route m p h (c_routes c); c_mw := c_mw c |}
+    | OGetRoutes => c                                  (* return c.routes *)
+    | OGetMiddleware => c                              (* return c.middleware *)
+    | OSetMiddleware f => {| c_routes := c_routes c; c_mw := Some f |}
+    end.
+  Definition cfg_run (ops : list cfg_op) : cfg := fold_left cfg_step ops {| c_routes := []; c_mw := None |}.
+  (* what the property talks about: the AddRoute calls in order, and the middleware set last *)
+  Definition adds_of (ops : list cfg_op) : list (Z * P * H) :=
+    flat_map (fun o => match o with OAdd m p h => [(m, p, h)] | _ => [] end) ops.
+  Definition mw_of_ops (ops : list cfg_op) : option (H -> H) :=
+    fold_left (fun acc o => match o with OSetMiddleware f => Some f | _ => acc end) ops None.
+
   (* the double range loop of NewHttpProvider / NewHttpsProvider registering "METHOD path" patterns,
      each handler wrapped in the middleware when one is configured *)
   Definition wrap_with (mw : option (H -> H)) (h : H) : H :=
